@@ -74,6 +74,7 @@ struct St {
     prefix: Vec<u16>,
     diverged: Option<String>,
     horizon_hit: bool,
+    lock_deadlock: bool,
     worker_panic: Option<(String, String)>,
     handles: Vec<std::thread::JoinHandle<()>>,
     last_spawn_task: Option<u16>,
@@ -82,6 +83,9 @@ struct St {
 pub struct Ctl {
     m: Mutex<St>,
     cv: Condvar,
+    /// lock-level mode: every `lock()` of the operator states (hook H1) and of the threaded runtime is a
+    /// scheduling point, also inside polls; otherwise only the runtime's locks outside polls are
+    fine: bool,
 }
 
 thread_local! {
@@ -95,8 +99,9 @@ fn ctx() -> Option<(Arc<Ctl>, usize)> {
 const HORIZON: usize = 20_000;
 
 impl Ctl {
-    fn new(prefix: Vec<u16>) -> Arc<Ctl> {
+    fn new(prefix: Vec<u16>, fine: bool) -> Arc<Ctl> {
         Arc::new(Ctl {
+            fine,
             m: Mutex::new(St {
                 threads: vec![Th { state: ThState::Runnable, depth: 0, woken: false, kind: 0, task: None }],
                 current: 0,
@@ -108,6 +113,7 @@ impl Ctl {
                 prefix,
                 diverged: None,
                 horizon_hit: false,
+                lock_deadlock: false,
                 worker_panic: None,
                 handles: vec![],
                 last_spawn_task: None,
@@ -128,7 +134,18 @@ impl Ctl {
 
     /// Pick the next thread to run. `me` is the deciding thread (it may or may not be runnable).
     fn decide(st: &mut St, me: usize) -> usize {
-        let enabled: Vec<u16> = st.threads.iter().enumerate().filter(|(_, t)| t.state == ThState::Runnable).map(|(i, _)| i as u16).collect();
+        Self::decide_ex(st, me, false)
+    }
+
+    /// `blocked`: the deciding thread found the lock it wants held by another thread; it cannot continue now.
+    fn decide_ex(st: &mut St, me: usize, blocked: bool) -> usize {
+        let enabled: Vec<u16> = st.threads.iter().enumerate().filter(|(i, t)| t.state == ThState::Runnable && !(blocked && *i == me)).map(|(i, _)| i as u16).collect();
+        if enabled.is_empty() && blocked {
+            // the holder of the lock is not runnable: a lock cycle or a lock held by a parked thread
+            st.lock_deadlock = true;
+            st.free_run = true;
+            return me;
+        }
         if enabled.is_empty() {
             st.quiescent = true;
             return 0;
@@ -212,6 +229,22 @@ impl Ctl {
         if yield_now {
             self.yield_point(me);
         }
+    }
+
+    /// A mutex is about to be locked (`blocked`: it was found held). `core`: an operator-state mutex (H1).
+    fn on_lock(&self, me: usize, _addr: usize, blocked: bool, core: bool) {
+        let mut st = self.m.lock().unwrap();
+        if st.free_run {
+            return;
+        }
+        if !self.fine {
+            // thread-level mode: only the runtime's own locks, outside polls
+            if core || st.threads[me].depth > 0 {
+                return;
+            }
+        }
+        let next = Self::decide_ex(&mut st, me, blocked);
+        let _st = self.hand_over(st, me, next);
     }
 
     fn on_transition(&self, me: usize, t: hv::Transition, task: usize, flags: [bool; 4]) {
@@ -308,6 +341,25 @@ fn hook_spawn(job: hv::Job) -> Option<hv::Job> {
         None => Some(job),
     }
 }
+fn hook_lock_rt(addr: usize, blocked: bool) -> bool {
+    match ctx() {
+        Some((ctl, me)) => {
+            ctl.on_lock(me, addr, blocked, false);
+            true
+        }
+        None => false,
+    }
+}
+fn hook_lock_core(addr: usize, blocked: bool) -> bool {
+    match ctx() {
+        Some((ctl, me)) if ctl.fine => {
+            ctl.on_lock(me, addr, blocked, true);
+            // a free-running tear-down must block like production code
+            !ctl.m.lock().unwrap().free_run
+        }
+        _ => false,
+    }
+}
 fn hook_transition(t: hv::Transition, task: usize, flags: [bool; 4]) {
     if let Some((ctl, me)) = ctx() {
         ctl.on_transition(me, t, task, flags);
@@ -317,7 +369,8 @@ fn hook_transition(t: hv::Transition, task: usize, flags: [bool; 4]) {
 pub fn install_hooks() {
     static ONCE: std::sync::Once = std::sync::Once::new();
     ONCE.call_once(|| {
-        hv::install(hv::Hooks { point: hook_point, spawn: hook_spawn, transition: hook_transition });
+        hv::install(hv::Hooks { point: hook_point, spawn: hook_spawn, transition: hook_transition, lock: hook_lock_rt });
+        glaredb_core::util::verif_sync::install(hook_lock_core);
     });
 }
 
@@ -393,7 +446,11 @@ impl ThrDriver {
 
     /// Execute `sql` under the controlled scheduler following `prefix`, with an optional canceller thread.
     pub fn run(&mut self, sql: &str, prefix: &[u16], with_cancel: bool) -> ThrObs {
-        let ctl = Ctl::new(prefix.to_vec());
+        self.run_mode(sql, prefix, with_cancel, false)
+    }
+
+    pub fn run_mode(&mut self, sql: &str, prefix: &[u16], with_cancel: bool, fine: bool) -> ThrObs {
+        let ctl = Ctl::new(prefix.to_vec(), fine);
         CTX.with(|c| *c.borrow_mut() = Some((ctl.clone(), 0)));
         let s = self.sue.session().clone();
         let sqls = sql.to_string();
@@ -450,6 +507,9 @@ impl ThrDriver {
                     if st.horizon_hit {
                         outcome = Some(Outcome::Hang { detail: format!("decision horizon {HORIZON} reached (livelock)") });
                     }
+                    if st.lock_deadlock {
+                        outcome = Some(Outcome::Hang { detail: "a thread waits for a lock whose holder cannot run (lock cycle)".into() });
+                    }
                     break;
                 }
                 st.threads[0].depth = 1;
@@ -482,6 +542,9 @@ impl ThrDriver {
                     if st.free_run {
                         if st.horizon_hit {
                             outcome = Some(Outcome::Hang { detail: format!("decision horizon {HORIZON} reached (livelock)") });
+                        }
+                        if st.lock_deadlock {
+                            outcome = Some(Outcome::Hang { detail: "a thread waits for a lock whose holder cannot run (lock cycle)".into() });
                         }
                         break;
                     }
@@ -662,6 +725,8 @@ pub struct ThrCfg {
     pub exec_cap: u64,
     pub threads: usize,
     pub with_cancel: bool,
+    /// lock-level mode (see Ctl::fine)
+    pub fine: bool,
 }
 
 #[derive(Clone, Debug)]
@@ -711,13 +776,13 @@ fn prepare(d: &mut ThrDriver, shape: &Shape) {
     }
 }
 
-fn exec_one(d: &mut ThrDriver, shape: &Shape, prefix: &[u16], with_cancel: bool) -> ThrObs {
+fn exec_one(d: &mut ThrDriver, shape: &Shape, prefix: &[u16], with_cancel: bool, fine: bool) -> ThrObs {
     for s in &shape.per_run {
         let _ = d.q_free(s);
     }
     // a thread that blocks for good inside the engine (self-deadlock on a real lock) stops the whole
     // execution: the process-level guard records it and the next attempt reports it as a hang
-    let key = format!("thr|{}|{}|{:?}|cancel={with_cancel}", shape.name, shape.query, prefix);
+    let key = format!("thr|{}|{}|{:?}|cancel={with_cancel}|fine={fine}", shape.name, shape.query, prefix);
     if crate::guard::skipped(&key, 0).is_some() {
         d.dirty = true;
         return ThrObs {
@@ -733,7 +798,7 @@ fn exec_one(d: &mut ThrDriver, shape: &Shape, prefix: &[u16], with_cancel: bool)
         };
     }
     crate::guard::enter(&key, 0);
-    let mut o = d.run(&shape.query, prefix, with_cancel);
+    let mut o = d.run_mode(&shape.query, prefix, with_cancel, fine);
     crate::guard::leave();
     if !d.dirty {
         for s in &shape.observe {
@@ -754,12 +819,12 @@ pub fn explore(shape: &Shape, cfg: &ThrCfg) -> ThrResult {
     let mut res = ThrResult::default();
     let mut d0 = ThrDriver::new();
     prepare(&mut d0, shape);
-    let r1 = exec_one(&mut d0, shape, &[], cfg.with_cancel);
+    let r1 = exec_one(&mut d0, shape, &[], cfg.with_cancel, cfg.fine);
     if d0.dirty {
         d0 = ThrDriver::new();
         prepare(&mut d0, shape);
     }
-    let r2 = exec_one(&mut d0, shape, &[], cfg.with_cancel);
+    let r2 = exec_one(&mut d0, shape, &[], cfg.with_cancel, cfg.fine);
     let tr = |o: &ThrObs| o.decisions.iter().map(|d| d.chosen).collect::<Vec<u16>>();
     if tr(&r1) != tr(&r2) || r1.log != r2.log || canon(shape, &r1.outcome) != canon(shape, &r2.outcome) {
         res.machinery.push(format!("shape {}: the default thread schedule is not reproducible ({} vs {} decisions, {} vs {} events)", shape.name, r1.decisions.len(), r2.decisions.len(), r1.log.len(), r2.log.len()));
@@ -821,7 +886,7 @@ pub fn explore(shape: &Shape, cfg: &ThrCfg) -> ThrResult {
                         d = ThrDriver::new();
                         prepare(&mut d, shape);
                     }
-                    let obs = exec_one(&mut d, shape, &w.prefix, cfg.with_cancel);
+                    let obs = exec_one(&mut d, shape, &w.prefix, cfg.with_cancel, cfg.fine);
                     let n = executions.fetch_add(1, Ordering::SeqCst) + 1;
                     decisions.fetch_add(obs.decisions.len() as u64, Ordering::SeqCst);
                     if n >= cfg.exec_cap || start.elapsed() > cfg.wall_cap {
